@@ -133,10 +133,13 @@ int main(int argc, char** argv) {
   prctl(PR_SET_CHILD_SUBREAPER, 1);
   for (int s : {SIGSEGV, SIGBUS, SIGFPE, SIGABRT, SIGILL}) signal(s, crashHandler);
 
+  auto rss = [](const char* w) { if (!getenv("CXSYM_FORKBENCH")) return; { double t = nowS(); for (int i = 0; i < 200; ++i) { pid_t p = fork(); if (!p) _exit(0); int st; waitpid(p, &st, 0); } fprintf(stderr, "fork @%s: %.3f ms\n", w, (nowS() - t) * 5); } FILE* f = fopen("/proc/self/statm", "r"); long a, b; if (f && fscanf(f, "%ld %ld", &a, &b) == 2) fprintf(stderr, "rss %s: %ld MB\n", w, b * 4 / 1024); if (f) fclose(f); };
+  rss("start");
   SMDiagnostic err;
   MOD = parseIRFile(OPT.bc, err, CTX);
   if (!MOD) { err.print("cxsym", errs()); return 3; }
   DL = &MOD->getDataLayout();
+  rss("module loaded");
 
   Z3_config cfg = Z3_mk_config();
   Z3_set_param_value(cfg, "model", "true");
@@ -156,9 +159,11 @@ int main(int argc, char** argv) {
   MODEL = Z3_mk_model(Z);
   Z3_model_inc_ref(Z, MODEL);
 
+  rss("z3 ready");
   initArena();
   registerHandlers();
   layoutGlobals();
+  rss("globals laid out");
   REGS.reserve(1 << 20);
   STACK.reserve(4096);
   if (!OPT.replay.empty()) {
@@ -168,6 +173,11 @@ int main(int argc, char** argv) {
   }
   Function* entry = MOD->getFunction(OPT.entry);
   if (!entry || entry->isDeclaration()) { fprintf(stderr, "cxsym: entry function %s not found\n", OPT.entry.c_str()); return 3; }
+  if (getenv("CXSYM_FORKBENCH")) {
+    double t = nowS();
+    for (int i = 0; i < 1000; ++i) { pid_t p = fork(); if (!p) _exit(0); int st; waitpid(p, &st, 0); }
+    fprintf(stderr, "fork+exit+wait: %.3f ms each\n", (nowS() - t));
+  }
   try {
     runCtors();
     std::vector<Val> args;
